@@ -1,6 +1,174 @@
-"""C08 C09 C04(visibility) C10: concurrency layer."""
+"""C08 C09 C04(visibility) C10: the concurrency layer.
+   - real multi-threaded executions (conc driver, seeded delay points) validated by ConcTrace.tla,
+   - the design (Conc.tla) model-checked for deadlock, lost wake-ups and, under fairness, termination."""
+import json, os, shutil, time
+from . import common as c
+from . import seqrun as sr
+from .common import Broken, log, Outcome
+
 CON = {'Reset', 'Call', 'Ret', 'final', 'WEnq', 'WLead', 'WGroup', 'LogAppend', 'LogSync', 'MemInsert', 'WPublish', 'CvSignal', 'CvBcast',
        'CvWait', 'CvWoke', 'WDone', 'WFollowerRet', 'RoomWait', 'RoomDelay', 'RoomErr', 'MemSwitch', 'GetCap', 'GetDone', 'SnapNew',
        'SnapRel', 'IterNew', 'IterFree', 'BgSched', 'PoolSchedule', 'PoolRun', 'PoolStop', 'PoolWorkerExit', 'BgStart', 'BgEnd',
        'FlushInComp', 'BgError', 'CloseStart', 'CloseWaited', 'CloseDone', 'open', 'opts', 'ManualSet', 'ManualDone', 'Hang'}
-CHECKS = {}
+
+
+class CExec:
+    def __init__(self, seed, threads, ops, mode):
+        self.seed = seed; self.threads = threads; self.ops = ops; self.mode = mode
+        self.rc = None; self.dir = None; self.trace = None; self.err = ''; self.timed_out = False
+
+    def desc(self):
+        return dict(seed=self.seed, threads=self.threads, ops=self.ops, mode=self.mode)
+
+
+def run_conc(exe, ex, extra_env=None, timeout=120):
+    d = c.scratch('conc'); ex.dir = d
+    ex.trace = os.path.join(d, 'trace.ndjson')
+    env = {'LCDB_VERIF_LINEBUF': '1'}
+    if extra_env: env.update(extra_env)
+    p = c.sh([exe, str(ex.seed), str(ex.threads), str(ex.ops), ex.trace, os.path.join(d, 'db'), ex.mode], timeout=timeout, env=env)
+    ex.rc = p.returncode; ex.err = (p.stderr or '')[-1000:]; ex.timed_out = getattr(p, 'timed_out', False)
+    return ex
+
+
+def plan(tier, prop):
+    if tier == 'quick' and prop == 'C04':
+        return [(3, 150, 'mix'), (4, 150, 'mix'), (6, 100, 'mix'), (8, 80, 'mix')]
+    if tier == 'quick':
+        base = [(2, 150, 'mix'), (3, 150, 'mix'), (4, 120, 'mix'), (6, 100, 'mix'), (8, 80, 'mix'), (3, 200, 'stall'), (5, 120, 'stall'), (8, 60, 'stall')]
+        return base
+    out = []
+    for rep in range(30):
+        for (t, o, m) in [(2, 300, 'mix'), (3, 300, 'mix'), (4, 250, 'mix'), (6, 200, 'mix'), (8, 150, 'mix'), (3, 300, 'stall'), (5, 200, 'stall'), (8, 120, 'stall')]:
+            out.append((t, o, m))
+    return out
+
+
+def conc_layer(prop, cfg, tier, seed, out, st):
+    lib = c.build_lib(); exe = c.build_driver('conc', lib)
+    execs = [CExec(seed * 10000 + i, t, o, m) for i, (t, o, m) in enumerate(plan(tier, prop))]
+    c.pmap(lambda ex: run_conc(exe, ex), execs, 6)     # few at a time: these are timing sensitive
+    st.update(dict(executions=len(execs), hangs=0, states=0, transitions=0, events=0, groups_multi=0, threads=sorted(set(e.threads for e in execs))))
+
+    def validate(ex):
+        evs = [e for e in sr.load_events(ex.trace) if e['e'] in CON]
+        path = os.path.join(ex.dir, 'conc.ndjson'); sr.write_trace(path, evs)
+        r = c.trace_validate('ConcTrace', cfg, path, timeout=900, heap='4g')
+        return ex, evs, r, path
+    todo = []
+    for ex in execs:
+        if ex.rc == 3 or ex.timed_out:
+            st['hangs'] += 1
+            if prop == 'C09':
+                _hang(prop, exe, ex, cfg, out)
+            continue
+        if ex.rc != 0:
+            ex2 = CExec(ex.seed, ex.threads, ex.ops, ex.mode); run_conc(exe, ex2)
+            if ex2.rc in (0, 3): raise Broken('conc driver failure not reproducible: rc=%s %s' % (ex.rc, ex.err))
+            d = c.replay_dir(prop, 'conc'); json.dump(dict(kind='conc', prop=prop, exec=ex.desc(), why='exit %s' % ex.rc), open(os.path.join(d, 'replay.json'), 'w'))
+            out.violation('concurrent execution crashed (exit %s): %s' % (ex.rc, ex.desc()), d, dict(kind='driver_exit'))
+            if ex2.dir: c.rmtree(ex2.dir)
+            continue
+        todo.append(ex)
+    sample = None
+    for ex, evs, r, path in c.pmap(validate, todo, 6):
+        st['states'] += r['res'].distinct; st['transitions'] += r['res'].generated; st['events'] += len(evs)
+        st['groups_multi'] += sum(1 for e in evs if e['e'] == 'WGroup' and len(e['members']) > 1)
+        if sample is None:
+            for i, e in enumerate(evs):
+                if e['e'] == 'WGroup' and len(e['members']) > 1:
+                    sample = [{k: v for k, v in x.items() if k != 'n'} for x in evs[max(0, i - 3):i + 9]]; break
+        if r['accepted'] or out.full():
+            continue
+        _report(prop, exe, ex, evs, r, path, cfg, out)
+    st['sample'] = sample or []
+    if prop != 'C09' and st['hangs'] == len(execs):
+        raise Broken('every concurrent execution hung; nothing was validated (see C09)')
+    for ex in execs:
+        if ex.dir: c.rmtree(ex.dir)
+
+
+def _hang(prop, exe, ex, cfg, out):
+    """A run in which no API call completed for 20 s. Reported when (a) the recorded prefix shows a missing wake-up
+    (rejected by ConcTrace) or (b) the hang repeats with the same seed."""
+    evs = [e for e in sr.load_events(ex.trace) if e['e'] in CON and e['e'] != 'Hang']
+    path = os.path.join(ex.dir, 'conc.ndjson'); sr.write_trace(path, evs)
+    r = c.trace_validate('ConcTrace', cfg, path, timeout=900, heap='4g')
+    rejected = (not r['accepted']) and (r['violated'] is not None or (r['prefix'] is not None and r['prefix'] < len(evs)))
+    repeat = False
+    if not rejected:
+        for _ in range(2):
+            ex2 = CExec(ex.seed, ex.threads, ex.ops, ex.mode); run_conc(exe, ex2)
+            if ex2.dir: c.rmtree(ex2.dir)
+            if ex2.rc == 3 or ex2.timed_out:
+                repeat = True; break
+    if not (rejected or repeat):
+        raise Broken('a hang did not repeat and its trace prefix validates: seed=%d' % ex.seed)
+    d = c.replay_dir(prop, 'hang')
+    shutil.copy(path, os.path.join(d, 'conc_trace.ndjson'))
+    bad = evs[r['prefix']] if rejected and r['prefix'] is not None and r['prefix'] < len(evs) else None
+    json.dump(dict(kind='conc', prop=prop, exec=ex.desc(), why='hang', rejected_event=bad, cfg=cfg), open(os.path.join(d, 'replay.json'), 'w'), indent=1)
+    out.violation('calls stopped returning (hang) in %s%s' % (ex.desc(), '; first unexplained event: %s' % json.dumps(bad)[:200] if bad else ''), d,
+                  dict(kind='hang'))
+
+
+def _report(prop, exe, ex, evs, r, path, cfg, out):
+    idx = r['prefix'] if r['prefix'] is not None else 0
+    bad = evs[idx] if idx < len(evs) else None
+    # reproduce: schedules differ between runs, so the same KIND of rejection must show up again within a few runs
+    rep = False
+    for k in range(4):
+        ex2 = CExec(ex.seed if k == 0 else ex.seed + 7919 * k, ex.threads, ex.ops, ex.mode); run_conc(exe, ex2)
+        if ex2.rc == 0:
+            evs2 = [e for e in sr.load_events(ex2.trace) if e['e'] in CON]
+            p2 = os.path.join(ex2.dir, 'conc.ndjson'); sr.write_trace(p2, evs2)
+            r2 = c.trace_validate('ConcTrace', cfg, p2, timeout=900, heap='4g')
+            if not r2['accepted']:
+                b2 = evs2[r2['prefix']] if r2['prefix'] is not None and r2['prefix'] < len(evs2) else None
+                if (b2 or {}).get('e') == (bad or {}).get('e'): rep = True
+        elif ex2.rc == 3:
+            rep = True
+        if ex2.dir: c.rmtree(ex2.dir)
+        if rep: break
+    if not rep:
+        raise Broken('ConcTrace rejection did not repeat in 4 further runs: %s at %s' % (ex.desc(), json.dumps(bad)[:200]))
+    d = c.replay_dir(prop, 'conc')
+    shutil.copy(path, os.path.join(d, 'conc_trace.ndjson'))
+    ctx = evs[max(0, idx - 12):idx + 1]
+    json.dump(dict(kind='conc', prop=prop, exec=ex.desc(), cfg=cfg, violated=r['violated'], line=idx, event=bad, context=ctx), open(os.path.join(d, 'replay.json'), 'w'), indent=1)
+    open(os.path.join(d, 'README'), 'w').write('Reproduce: cd /verif && ./check replay %s\nConcTrace (%s) cannot explain event #%d: %s\n' % (d, cfg, idx, json.dumps(bad)))
+    out.violation('ConcTrace rejects event #%d %s (%s)' % (idx, json.dumps(bad)[:260], ex.desc()), d, dict(kind='conc', event=(bad or {}).get('e')))
+
+
+def conc_mc(cfgname, prop, out, st):
+    r = c.tlc('Conc', cfgname + '.cfg', workers=c.NCPU, timeout=1500, heap='12g', deadlock=False)
+    if r.error and not r.violated:
+        raise Broken('Conc model checking failed: %s' % r.error)
+    st.update(dict(states=r.distinct, transitions=r.generated, depth=r.depth, cfg=cfgname, wall_s=round(r.wall, 1), liveness_checked=True))
+    if r.violated:
+        d = c.replay_dir(prop, 'mc'); open(os.path.join(d, 'tlc.out'), 'w').write(r.out)
+        json.dump(dict(kind='mc', prop=prop, module='Conc', cfg=cfgname + '.cfg', violated=r.violated), open(os.path.join(d, 'replay.json'), 'w'))
+        out.violation('Conc.tla: %s violated in the design model' % r.violated, d, dict(kind='mc', violated=r.violated))
+
+
+def run_conc_prop(prop, tier, seed):
+    t0 = time.time()
+    out = Outcome(prop)
+    st = {}; mc = {}
+    conc_layer(prop, 'ConcTrace_%s.cfg' % prop, tier, seed, out, st)
+    conc_mc('Conc_quick' if tier == 'quick' else 'Conc_thorough', prop, out, mc)
+    sample = st.pop('sample', [])
+    cov = dict(states=st.get('states', 0) + mc.get('states', 0), transitions=st.get('transitions', 0) + mc.get('transitions', 0),
+               traces_validated_against_impl=st.get('executions', 0) - st.get('hangs', 0), samples=[sample], conc_trace=st, conc_mc=mc, exhaustive=False)
+    rc = out.finish()
+    c.write_evidence(prop, tier, seed, 'model_checking', cov, time.time() - t0, violations=len(out.violations),
+                     assumptions=['schedules of the real code are sampled (OS scheduler + seeded delay points), not enumerated; enumeration is on the model Conc.tla',
+                                  'hook events are emitted under db->mutex (or by the single owner of an unlocked step) and ordered by one atomic counter',
+                                  'close is never raced with foreground calls on the real code (API contract); that case is model-only'])
+    return rc
+
+
+CHECKS = {
+    'C08': lambda tier, seed: run_conc_prop('C08', tier, seed),
+    'C09': lambda tier, seed: run_conc_prop('C09', tier, seed),
+}
